@@ -829,14 +829,11 @@ func (c CustomExtension) Builder() (cert.ExtensionBuilder, error) {
 func readRawString(s string) ([]byte, error) {
 	if strings.HasPrefix(s, binaryPrefix) {
 		b64Str := strings.TrimPrefix(s, binaryPrefix)
-		dec := base64.NewDecoder(base64.StdEncoding, strings.NewReader(b64Str))
-
-		b := make([]byte, len(b64Str))
-		n, err := dec.Read(b)
+		b, err := base64.StdEncoding.DecodeString(b64Str)
 		if err != nil {
 			return nil, err
 		}
-		return b[:n], nil
+		return b, nil
 	} else if s == emptyPrefix {
 		//maybe this is unnecessary
 		return make([]byte, 0), nil
